@@ -1261,7 +1261,36 @@ func (in *Interp) callBuiltin(caller *frame, fn *ssa.Builtin, args []Value) Valu
 		}
 		return args[0]
 	case "min", "max":
-		in.unsupported("min/max builtin")
+		r := args[0]
+		for _, a := range args[1:] {
+			var less Value
+			switch x := r.(type) {
+			case int64:
+				y, ok := a.(int64)
+				if !ok {
+					in.unsupported("min/max builtin on symbolic values")
+				}
+				less = y < x
+			case uint64:
+				y, ok := a.(uint64)
+				if !ok {
+					in.unsupported("min/max builtin on symbolic values")
+				}
+				less = y < x
+			case string:
+				y, ok := a.(string)
+				if !ok {
+					in.unsupported("min/max builtin on symbolic values")
+				}
+				less = y < x
+			default:
+				in.unsupported("min/max builtin on symbolic values")
+			}
+			if less.(bool) == (fn.Name() == "min") {
+				r = a
+			}
+		}
+		return r
 	}
 	panic("unknown builtin " + fn.Name())
 }
